@@ -129,7 +129,7 @@ PROPS = {
     },
     "C18": {
         "facts": facts.gen_pure_fns, "runs": notif_runs, "replay_runs": replay_runs, "monitor": mon_notif.C18, "stateful": True,
-        "diff_relevant": lambda d: d["mod"] == "notif" or (d["mod"] == "query" and d["op"].startswith("notif.")),
+        "diff_relevant": lambda d: d["mod"] == "notif" or (d["mod"] == "query" and (d["op"].startswith("notif.") or d["op"] == "rns.resolve")),
         "trusted_base": BASE_TRUST + ["rns.Resolve and json.Valid are oracle inputs of the model (their results are recorded by the harness)",
                                       "raw store keys are split on '/' by the harness; addresses are bech32 and contain no '/'"],
         "assumptions": ["recipient addresses are '/'-free (bech32)", "block time is strictly increasing between blocks"],
@@ -149,7 +149,7 @@ PROPS = {
     },
     "C16": {
         "runs": rns_runs, "replay_runs": replay_runs, "monitor": mon_rns.c16, "facts": facts.gen_pure_fns,
-        "diff_relevant": lambda d: (d["mod"] == "query" and d["op"] in ("rns.name", "rns.listOwnedNames", "rns.primaryName")) or
+        "diff_relevant": lambda d: (d["mod"] == "query" and d["op"] in ("rns.name", "rns.listOwnedNames", "rns.primaryName", "rns.resolve")) or
             (d["mod"] == "rns" and d["op"] in ("register", "init")) or
             (d["mod"] == "rns" and d["op"] == "restart" and "names" in d["fields"]),  # "unexpired for at least Y years": a name may not vanish in a restart
         "trusted_base": BASE_TRUST, "assumptions": RNS_ASSUME,
@@ -194,7 +194,7 @@ def st(fields=None, ops=None, opfields=None, queries=None):
     fields = set(fields or [])
     ops = set(ops or [])
     opfields = opfields or {}
-    queries = set("storage." + q for q in (queries or []))
+    queries = set((q if "." in q else "storage." + q) for q in (queries or []))
 
     def rel(d):
         if d["mod"] == "query":
@@ -224,8 +224,8 @@ STORAGE_PROPS = {
                 rel=st(fields=["verify", "challenge"], ops=["postProof"], opfields={"block": ["files", "files2", "proofs", "providers"]})),
     "C03": dict(main="proofs", monitor=mon_storage.C03, stateful=True, facts=facts.gen_pure_fns,
                 rel=st(opfields={"block": ["files", "files2", "proofs", "providers", "bank", "panic"]})),
-    "C04": dict(main="payments", monitor=mon_storage.c04, facts=facts.gen_pure_fns,
-                rel=st(ops=["buyStorage", "setParams"], opfields={"postFile": ["bank", "gauges", "outcome"]})),
+    "C04": dict(main="payments", extra=("rns",), monitor=mon_storage.c04, facts=facts.gen_pure_fns,
+                rel=st(ops=["buyStorage", "setParams"], opfields={"postFile": ["bank", "gauges", "outcome"]}, queries=["rns.resolve"])),
     "C05": dict(main="storage", extra=("payments", "forms", "mint", "rns", "notif", "filetree"), monitor=mon_storage.c05, panic=True,
                 rel=st(fields=["panic"], ops=["block"], opfields={"postFile": ["outcome", "files"]})),
     "C07": dict(main="plans", monitor=mon_storage.c07,
